@@ -2,7 +2,9 @@ package memhttp
 
 import (
 	"errors"
+	"fmt"
 	"io"
+	"strings"
 )
 
 // ErrTransport is the injected non-EOF transport failure.
@@ -21,7 +23,8 @@ type Script struct {
 	// -1 delivers the complete body.
 	Cut int `json:"cut"`
 	// End is the terminal answer once the bytes are exhausted: "eof",
-	// "unexpected" (io.ErrUnexpectedEOF) or "transport".
+	// "unexpected" (io.ErrUnexpectedEOF), "transport", or "rst:<CODE>" (the
+	// error text of an HTTP/2 stream reset by the peer).
 	End string `json:"end"`
 	// WithLast returns the terminal answer together with the last data read.
 	WithLast bool `json:"with_last"`
@@ -33,6 +36,10 @@ func (s Script) endErr() error {
 		return io.ErrUnexpectedEOF
 	case "transport":
 		return ErrTransport
+	}
+	if strings.HasPrefix(s.End, "rst:") {
+		// the text net/http's HTTP/2 client produces when the peer resets the stream
+		return fmt.Errorf("stream error: stream ID 1; %s; received from peer", strings.TrimPrefix(s.End, "rst:"))
 	}
 	return io.EOF
 }
